@@ -1,4 +1,5 @@
 import RedisEmu.Exec
+import RedisEmu.Proofs.Random
 import RedisEmu.Proofs.GoArith
 import RedisEmu.Proofs.AList
 import RedisEmu.Props.C02
@@ -229,5 +230,47 @@ theorem hincrby_guard_as_coded (v d : BitVec 64) :
   unfold goAddOverflow wrap64 twoP63 twoP64
   simp at *
   by_cases hd : 0 < d.toInt <;> simp [hd] <;> omega
+
+/-! ### HRANDFIELD: for every outcome of the random source (`RedisEmu.Random`) -/
+
+/-- **HRANDFIELD** (without WITHVALUES). `h` is the hash as the model stores it (no field twice), `bs` any
+    bucket table holding exactly its fields, `rs` whatever `rand.Intn` delivers: the reply only names
+    existing fields, distinct ones and min(n, HLEN) of them for a count n ≥ 0, exactly |n| (repeats
+    allowed) for n < 0, one field without a count. -/
+theorem hrandfield_reply (h : List (Bytes × Bytes)) (bs : Buckets) (count : Option Int) (rs : List Nat) (v : Value)
+    (hd : (h.map (·.1)).Nodup) (hb : bs.members.Perm (h.map (·.1))) (hr : randReply bs count rs = some v) :
+    validateRandom (h.map (·.1)) count v = true := by
+  rw [← validateRandom_perm bs.members _ hb]
+  exact random_reply_valid bs count rs v (hb.nodup_iff.mpr hd) hr
+
+/-- WITHVALUES: every drawn field comes with the value the hash holds for it -/
+def withValues (h : List (Bytes × Bytes)) (fields : List Bytes) : List (Bytes × Option Bytes) :=
+  fields.map fun f => (f, alookup f h)
+
+theorem hrandfield_withvalues (h : List (Bytes × Bytes)) (bs : Buckets) (is : List Nat)
+    (hb : bs.members.Perm (h.map (·.1))) (ho : ∀ i ∈ is, bs.occupied i = true) :
+    ∀ p ∈ withValues h (keysAt bs is), ∃ v, p.2 = some v ∧ (p.1, v) ∈ h := by
+  intro p hp
+  unfold withValues at hp
+  rw [List.mem_map] at hp
+  obtain ⟨f, hf, rfl⟩ := hp
+  have hfm : f ∈ h.map (·.1) := hb.mem_iff.mp ((keysAt_spec bs is ho).2 f hf)
+  -- a field of the hash has a value, and `alookup` finds one the hash holds
+  have : ∀ (l : List (Bytes × Bytes)), f ∈ l.map (·.1) → ∃ v, alookup f l = some v ∧ (f, v) ∈ l := by
+    intro l
+    induction l with
+    | nil => intro hm; simp at hm
+    | cons x r ih =>
+      intro hm
+      by_cases hx : x.1 = f
+      · exact ⟨x.2, by simp [alookup, hx], by rw [← hx]; exact List.mem_cons_self⟩
+      · have : f ∈ r.map (·.1) := by
+          simp only [List.map_cons, List.mem_cons] at hm
+          rcases hm with e | e
+          · exact absurd e.symm hx
+          · exact e
+        obtain ⟨v, h1, h2⟩ := ih this
+        exact ⟨v, by simp [alookup, hx, h1], List.mem_cons_of_mem _ h2⟩
+  exact this h hfm
 
 end RedisEmu
